@@ -746,7 +746,9 @@ func drainCases(o *core.Options) []*helperCase {
 // IsOrdered doc comments
 
 func flagged[T any](ordered bool) *stub[T] {
-	return &stub[T]{st: &stubStat{}, e: &env{ctx: context.Background()}, ordered: ordered}
+	s := &stub[T]{e: &env{ctx: context.Background()}, ordered: ordered}
+	s.st = &s.stat
+	return s
 }
 
 func isOrderedCases() []*helperCase {
